@@ -12,13 +12,15 @@ func init() {
 	register(&propDef{
 		id: "C16",
 		explanation: "Static clauses of 'call options reach exactly the nodes they address': " +
+			"(visits-all) the loops of extractOption over options, nodes and designated paths are left only when exhausted or with an error (no break / early success return); " +
+			"(opts-forwarded) every function that receives call options and calls another callable taking call options of the same family (or any/type-parameter conversions of it) passes its own options on — all runnable wrappers, paradigm adapters, keyed wrappers, nested-graph entries; " +
 			"(error-arms) in extractOption an empty path, an unknown first key, a sub-path below a component and an option-type mismatch on a designated component are arms that return an error and cannot reach a distribution write; " +
 			"(type-filter) an undesignated component option is handed to a node only under option-type equality, whole Options only to nested graphs; " +
 			"(no-leak) extractOption never writes through its inputs; every per-node option list is built by append on the per-run map's own element; options forwarded to nested graphs are deepCopy results whose paths are then replaced; deepCopy copies every slice field; " +
 			"(alias) no in-place append on Option.paths / NodePath.path; " +
 			"(tasks-carry-options) both task constructors hand the extracted options to the task; " +
 			"(convert-option) convertOption uses a comma-ok assertion and returns an error; (reflect-zero) the error arms cannot panic on a nil option.",
-		decided:    []string{"error-arms", "type-filter", "no-leak", "alias", "tasks-carry-options", "convert-option", "reflect-zero"},
+		decided:    []string{"visits-all", "opts-forwarded", "error-arms", "type-filter", "no-leak", "alias", "tasks-carry-options", "convert-option", "reflect-zero"},
 		notDecided: []string{"routing correctness over all nestings/designations (value-level)", "how components interpret their options"},
 		run:        runC16,
 	})
